@@ -88,6 +88,14 @@ def c04(ctx):
         tr, _ = ctx.record(b, "wire-limit", name="wire-limit-" + os.path.basename(b))
         ctx.validate("Trace_Wire", tr, {"C04"}, label="wire-limit-" + os.path.basename(b))
         rm(tr)
+    if ctx.thorough:
+        # the same corpus under AddressSanitizer (an extra observation channel, not a second oracle)
+        asan = ctx.build_asan()
+        if asan:
+            for drv in ("wire-limit", "wire-build", "wire-bytes"):
+                ctx.run_asan(asan, drv, "C04")
+        else:
+            ctx.assumptions.append("AddressSanitizer build not available in this run: memory-safety clause observed through copy events only")
 
 
 # ------------------------------------------------------------------------------ C05 registries
